@@ -31,7 +31,9 @@ ASSUMPTIONS = [
     'has the graphic type (whatever the order of the regions)',
     '3-D coordinates (3-D image regions, volume surfaces) carry no referenced instance: a referenced-UID filter never '
     'matches them',
-    'code equality is (value, scheme designator) (C17)',
+    'code equality is pydicom\'s (C17): (value, scheme designator, scheme version) with only the retired designator SRT mapped to '
+    'SCT; concept NAMES are matched in any version of their coding scheme (find_content_items, _unversioned_name): the harness hands '
+    'the model names as value|scheme (version dropped) and coded values as value|scheme[|version]',
 ]
 MODELLED_NOT_VERIFIED = ['ContentItem construction / parsing (C13)', 'CodedConcept equality (C17)', 'pydicom write/read']
 
@@ -272,16 +274,25 @@ def _combos(r, method, values, exhaustive, pools=None):
 
 # ------------------------------------------------------------------ accessors
 def _norm(t):
-    """(value, scheme) with the legacy SNOMED-RT spelling normalised to SNOMED-CT"""
+    """a code as the library compares it (pydicom `Code.__eq__`, C17): (value, scheme[, version]) with ONLY the retired
+    SNOMED-RT designator `SRT` mapped to SNOMED-CT (SNM3 / 99SDM spell other coding schemes for the library); the coding
+    scheme version is part of the code"""
     from pydicom.sr._snomed_dict import mapping
     v, d = str(t[0]), str(t[1])
-    if d in ('SRT', 'SNM3', '99SDM') and v in mapping['SRT']:
-        return (mapping['SRT'][v], 'SCT')
-    return (v, d)
+    rest = tuple(str(x) for x in t[2:] if x is not None)
+    if d == 'SRT' and v in mapping['SRT']:
+        return (mapping['SRT'][v], 'SCT') + rest
+    return (v, d) + rest
 
 
 def _code(c):
-    return _norm((c.value, c.scheme_designator))
+    ver = getattr(c, 'scheme_version', None)
+    return _norm((c.value, c.scheme_designator) + ((ver,) if ver else ()))
+
+
+def _name(c):
+    """a concept NAME as the library identifies it: (value, scheme), in whatever version of the coding scheme"""
+    return _code(c)[:2]
 
 
 def _check_accessors(ctx, case, seq, g, method):
@@ -318,7 +329,7 @@ def _check_accessors(ctx, case, seq, g, method):
         [('TM1', '99VERIF') if (x and x[0] == 'L9') else None for x in g['lateralities']])
     chk('method', _code(seq.method) if seq.method is not None else None, tuple(g['method']) if g['method'] else None)
     def mdesc(m):
-        return (_code(m.name), float(m.value), _code(m.unit), _code(m.qualifier) if m.qualifier is not None else None,
+        return (_name(m.name), float(m.value), _code(m.unit), _code(m.qualifier) if m.qualifier is not None else None,
                 _code(m.derivation) if m.derivation is not None else None, _code(m.method) if m.method is not None else None,
                 [_code(s.value) for s in m.finding_sites],
                 [(str(i.referenced_sop_class_uid), str(i.referenced_sop_instance_uid)) for i in m.referenced_images])
@@ -326,18 +337,18 @@ def _check_accessors(ctx, case, seq, g, method):
         [(tuple(n), float(v), tuple(u), tuple(x['qualifier']) if x.get('qualifier') else None,
           tuple(x['derivation']) if x.get('derivation') else None, tuple(x['method']) if x.get('method') else None,
           [tuple(t) for t in x.get('sites', [])], [tuple(i) for i in x.get('images', [])]) for n, v, u, x in g['measurements']])
-    chk('evaluations', [(_code(e.name), _code(e.value)) for e in seq.get_qualitative_evaluations()],
+    chk('evaluations', [(_name(e.name), _code(e.value)) for e in seq.get_qualitative_evaluations()],
         [(tuple(n), tuple(v)) for n, v in g['evaluations']])
     for _n, v_, _u, _x in g['measurements']:
         ctx.hist('measurement_value', srreports.value_kind(v_) + '/' + str(case.get('path', case.get('stream'))))
     # the name filter of both accessors, over the whole (small) pools of names: hits, misses, and the names of the OTHER
     # accessor / of the fixed items (a measurement name asked of the evaluations, "Finding" asked of the evaluations)
     for n in list(srreports.MEAS) + [srreports.EVALS[0], ('121071', 'DCM')]:
-        got = [(_code(m.name), float(m.value)) for m in seq.get_measurements(name=srreports.cc(n))]
+        got = [(_name(m.name), float(m.value)) for m in seq.get_measurements(name=srreports.cc(n))]
         want = [(tuple(n2), float(v2)) for n2, v2, _, _ in g['measurements'] if tuple(n2) == tuple(n)]
         chk(f'measurements by name {n[0]}', got, want)
     for n in list(srreports.EVALS) + [srreports.MEAS[0], ('121071', 'DCM'), ('363698007', 'SCT')]:
-        got = [(_code(e.name), _code(e.value)) for e in seq.get_qualitative_evaluations(name=srreports.cc(n))]
+        got = [(_name(e.name), _code(e.value)) for e in seq.get_qualitative_evaluations(name=srreports.cc(n))]
         want = [(tuple(n2), tuple(v2)) for n2, v2 in g['evaluations'] if tuple(n2) == tuple(n)]
         chk(f'evaluations by name {n[0]}', got, want)
     ref = g['ref']
@@ -576,13 +587,23 @@ def _group_containers(rep):
 
 
 def _raw_code(seq):
-    """'value|scheme' of a code sequence, the legacy SNOMED-RT spelling normalised to SNOMED-CT (the standard's equivalence,
-    pydicom's table; code equality itself is C17's subject)"""
+    """'value|scheme' of a concept NAME read from a data set: the retired SNOMED-RT designator `SRT` normalised to SNOMED-CT
+    (pydicom's table; nothing else - `SNM3`, `99SDM` are other coding schemes for the library), the coding scheme version
+    dropped (every name the library searches for carries no version, and a name without version matches the code in any
+    version: `find_content_items`, `_unversioned_name`)"""
     from pydicom.sr._snomed_dict import mapping
     v, d = str(seq[0].CodeValue), str(seq[0].CodingSchemeDesignator)
-    if d in ('SRT', 'SNM3', '99SDM') and v in mapping['SRT']:
+    if d == 'SRT' and v in mapping['SRT']:
         return f'{mapping["SRT"][v]}|SCT'
     return f'{v}|{d}'
+
+
+def _raw_value(seq):
+    """'value|scheme[|version]' of a coded VALUE read from a data set: values are compared with pydicom's equality, of which
+    the coding scheme version is a part (C17)"""
+    base = _raw_code(seq)
+    ver = seq[0].get('CodingSchemeVersion')
+    return base + (f'|{ver}' if ver else '')
 
 
 def _real_items(group_item):
@@ -600,7 +621,7 @@ def _real_items(group_item):
         vt = str(it.ValueType)
         value = ''
         if vt == 'CODE':
-            value = code(it.ConceptCodeSequence)
+            value = _raw_value(it.ConceptCodeSequence)
         elif vt == 'UIDREF':
             value = str(it.UID)
         elif vt == 'TEXT':
@@ -816,6 +837,25 @@ def _perturb(r, cont, what, pool):
                 respell(k2.ConceptNameCodeSequence)
                 if 'ConceptCodeSequence' in k2:
                     respell(k2.ConceptCodeSequence)
+    elif what in ('versioned-names', 'versioned-values'):
+        # the coding scheme version stated (CodingSchemeVersion is type 1C): on every concept NAME - the same concepts, nothing the
+        # queries answer may change - or on every coded VALUE - another code for the library (pydicom compares the version)
+        kw_ = 'ConceptNameCodeSequence' if what == 'versioned-names' else 'ConceptCodeSequence'
+        for i in items:
+            for j in [i] + list(i.get('ContentSequence', [])):
+                if kw_ in j:
+                    j[kw_].value[0].CodingSchemeVersion = '2.0'
+    elif what == 'snm3-names':
+        # concept names spelled with the designator SNM3 (SNOMED version 3): the library knows only SRT as an equivalent of
+        # SCT, so these are names of another coding scheme for it
+        from pydicom.sr._snomed_dict import mapping
+
+        def respell3(seq):
+            if str(seq[0].CodingSchemeDesignator) == 'SCT' and str(seq[0].CodeValue) in mapping['SCT']:
+                seq[0].CodeValue = mapping['SCT'][str(seq[0].CodeValue)]
+                seq[0].CodingSchemeDesignator = 'SNM3'
+        for i in items:
+            respell3(i.ConceptNameCodeSequence)
     elif what == 'reverse-regions':
         # same regions, other order: nothing the queries answer may change
         pos = [n for n, i in enumerate(items) if is_ref(i)]
@@ -852,7 +892,7 @@ def _third_party(ctx, reqs3, pending3, only_idx=None):
                     u.UID = groups[k]['tracking_uid']
             what = r.choice(['none', 'shuffle', 'duplicate-ref', 'second-type', 'remove-ref', 'ref-relationship', 'strip',
                              'bogus-graphic', 'no-graphic', 'no-sop', 'no-sop-source', 'no-children', 'reverse-regions',
-                             'legacy-names'])
+                             'legacy-names', 'versioned-names', 'versioned-values', 'snm3-names'])
             _perturb(r, cont, what, pool)
             kinds.append(what)
         # report level: no group at all (the container emptied / removed), or the container also holds items that are no
@@ -1130,8 +1170,9 @@ def _pairs(ctx, reqs, pending, spec_reqs, spec_pending, only_idx=None):
 
 
 MALFORMED = ['bogus-graphic', 'no-graphic', 'no-sop', 'no-sop-source', 'no-children', 'reverse-regions', 'legacy-names',
-             'swap-groups']
-METAMORPHIC = ('reverse-regions', 'legacy-names', 'swap-groups')     # no malformation: the answers must not change
+             'swap-groups', 'versioned-names', 'versioned-values', 'snm3-names']
+METAMORPHIC = ('reverse-regions', 'legacy-names', 'swap-groups', 'versioned-names')     # no malformation: the answers must not change
+RULE = ('versioned-values', 'snm3-names')      # the answers change as the library's documented code matching rule says
 ROI_SHAPES = [s_ for s_ in SHAPES if s_[0] != 'image' and s_[1] != 'regions2d-1']
 
 
@@ -1185,8 +1226,10 @@ def _malformed(ctx, reqs3, pending3, only_idx=None):
             fl = [{nm: None for nm in FILTERS[method]}]
             for nm in FILTERS[method]:
                 if nm in ('finding_type', 'finding_site'):
-                    # these filters read nothing a malformation touches; a respelling touches their names
-                    vals = pools[nm] if what == 'legacy-names' else pools[nm][:1]
+                    # these filters read nothing a malformation touches; a respelling / a stated version touches names and values
+                    vals = pools[nm] if what in ('legacy-names', 'versioned-names', 'versioned-values', 'snm3-names') else pools[nm][:1]
+                    if what == 'versioned-values':
+                        vals = list(vals) + [tuple(v_) + ('2.0',) for v_ in vals[:3]] + [tuple(vals[0]) + ('1.0',)]
                 elif nm == 'graphic_type':
                     vals = pools[nm] if about_graphics or not quick else [pools[nm][idx % 5], pools[nm][6 + idx % 5]]
                 elif nm == 'reference_type':
@@ -1201,7 +1244,7 @@ def _malformed(ctx, reqs3, pending3, only_idx=None):
         def fkey(method, f):
             return (method, tuple(sorted((k, str(v)) for k, v in f.items() if v is not None)))
         before = {}
-        if what in METAMORPHIC:
+        if what in METAMORPHIC or what in RULE:
             # the answers of the untouched report (this also lets the report remember whatever it remembers between queries)
             for method in ('planar', 'volumetric', 'image'):
                 for f in filters_of(method):
@@ -1247,9 +1290,39 @@ def _malformed(ctx, reqs3, pending3, only_idx=None):
                                                  'legacy-names': 'the answer changed when concept names / coded values were respelled '
                                                                  'with the equivalent legacy SNOMED-RT codes',
                                                  'swap-groups': 'after two groups were exchanged in place the answer is not the same groups '
-                                                                'in the new document order'}[what],
+                                                                'in the new document order',
+                                                 'versioned-names': 'the answer changed when every concept name stated the version of its '
+                                                                    'coding scheme (the same concepts)'}[what],
                                         'before': before[fkey(method, f)], 'after': now}, site=f'{method}/metamorphic-{what}')
-                if what == 'legacy-names' and ok and not case['filters']:
+                if what in RULE:
+                    # the library's documented matching rule, evaluated on the construction parameters: coded VALUES are equal iff
+                    # (value, scheme, version) are (SRT normalised to SCT); a concept NAME spelled with SNM3 is not the SCT name
+                    was = before[fkey(method, f)]
+                    want = was
+                    single = [k_ for k_ in f if f[k_] is not None]
+                    if single and single[0] in ('finding_type', 'finding_site') and isinstance(before[fkey(method, {})], list):
+                        nm_f = single[0]
+                        want = []
+                        for uid_ in before[fkey(method, {})]:
+                            k_ = uids.index(uid_)
+                            g_ = groups[k_]
+                            ver_ = ('2.0',) if (what == 'versioned-values' and k_ == pos) else ()
+                            if nm_f == 'finding_type':
+                                stored_ = [tuple(g_['finding_type']) + ver_] if g_['finding_type'] else []
+                            elif what == 'snm3-names' and k_ == pos:
+                                stored_ = []                    # the site items are no longer named "Finding Site" for the library
+                            else:
+                                stored_ = [tuple(x_) + ver_ for x_ in g_['finding_sites']]
+                            if any(_norm(x_) == _norm(f[nm_f]) for x_ in stored_):
+                                want.append(uid_)
+                    now = [_tracking(s_) for s_ in res[1]] if ok else ('err', res[1])
+                    if now != want:
+                        ctx.fail(case, {'what': {'versioned-values': 'coded values that state a coding scheme version are not matched as the '
+                                                                     'documented rule says (equal iff value, scheme AND version are)',
+                                                 'snm3-names': 'a report whose concept names are spelled with the SNM3 designator is not '
+                                                               'answered as the documented rule says (only SRT is an equivalent of SCT)'}[what],
+                                        'before': was, 'want': want, 'after': now}, site=f'{method}/code-rule-{what}')
+                if what in ('legacy-names', 'versioned-names') and ok and not case['filters']:
                     # a returned group still reports what it was constructed with (its accessors search by name, too)
                     for s_ in res[1]:
                         _check_accessors(ctx, dict(case, what='accessors after respelling'), s_, groups[uids.index(_tracking(s_))], method)
@@ -1422,6 +1495,13 @@ def _histories(ctx, reqs3, pending3, only_idx=None):
                 fl = [{nm: None for nm in FILTERS[method]}]
                 if uids:
                     fl.append({nm: (r.choice(uids) if nm == 'tracking_uid' else None) for nm in FILTERS[method]})
+                # and one filter of another kind (finding type / site, reference type, referenced instance), so that a stale
+                # answer cannot hide behind the two simplest queries
+                extra_nm = r.choice([n_ for n_ in FILTERS[method] if n_ not in ('tracking_uid', 'graphic_type', 'referenced_sop_class_uid')])
+                extra_v = {'finding_type': r.choice(srreports.FINDINGS), 'finding_site': r.choice(srreports.SITES),
+                           'reference_type': r.choice(ALLOWED_REF.get(method, ['ImageRegion'])),
+                           'referenced_sop_instance_uid': r.choice(pool['images'])[1]}[extra_nm]
+                fl.append({nm: (extra_v if nm == extra_nm else None) for nm in FILTERS[method]})
                 for f in fl:
                     keys0, list0 = set(vars(rep)), id(getattr(rep, '_list', None))
                     res = _call(getattr(rep, METHODS[method]), **_to_args(f))
